@@ -313,11 +313,16 @@ def run_property(prop: str, tier: str, specs, *, level="model_checking", crash_i
             v.note(f"NestedSampler.tla with checkpoint_on_training inside the critical section + kill: {prediction}")
         sched_states = sched_cfgs = 0
         sched_apa = None
+        sched_tlaps = None
         if prop == "C12":
             sched_states, sched_cfgs = schedule_model_check(scratch, tier)
             v.note(f"Schedule.tla: {sched_cfgs} configurations, {sched_states} states")
             sched_apa = schedule_apalache(scratch)
             v.note(f"MC_Schedule.tla (Apalache, inductive invariant for all constants): {sched_apa}")
+            from .tlaps import run_tlaps
+
+            sched_tlaps = run_tlaps(scratch)
+            v.note(f"TLAPS proofs of ScheduleOps / TrainPolicyOps (spec/proofs): {sched_tlaps}")
         n_scripted = 0
         if scripted:
             sspecs, n_sim = scripted_specs(scratch, tier, seed, v)
@@ -473,7 +478,8 @@ def run_property(prop: str, tier: str, specs, *, level="model_checking", crash_i
             "train_policy_calls_validated": sum(1 for p_ in packed for e_ in p_ if e_["ev"] in ("train_check", "train_call")),
             "trainings_with_reset": sum(1 for p_ in packed for e_ in p_
                                         if e_["ev"] == "train_call" and (e_.get("reset_w") or e_.get("reset_p"))),
-            "schedule_model": {"configurations": sched_cfgs, "states": sched_states, "apalache_unbounded": sched_apa},
+            "schedule_model": {"configurations": sched_cfgs, "states": sched_states, "apalache_unbounded": sched_apa,
+                               "tlaps": sched_tlaps},
             "checkpoint_calls_validated": sum(1 for p_ in packed for e_ in p_ if e_["ev"] == "ckpt_call")
             + (sum(1 for p_ in ipacked for e_ in p_ if e_["ev"] == "ckpt_call") if ins_stats else 0),
             "spec_prediction_checkpoint_on_training": prediction,
